@@ -42,6 +42,8 @@ class _State:
     job_serial = 0
     initialized = False
     actors: dict = {}
+    fail_jobs = None  # optional set of (function name, n): the n-th executed job of that function raises on its "worker"
+    func_calls: dict = {}
     on_job = None  # optional callback(func_name, serial, submission_args) before executing a job
     after_job = None
 
@@ -103,7 +105,7 @@ def _get_one(ref):
         raise TypeError(f"ray.get expects ObjectRef, got {type(ref)}")
     _ensure(ref)
     if ref.error is not None:
-        raise ref.error
+        raise _as_task_error(ref.func, ref.error) from ref.error
     return _load(ref.data, ref.bufs)
 
 
@@ -137,6 +139,10 @@ def wait(refs, num_returns=1, timeout=None, fetch_local=True):
     return ready, rest
 
 
+class InjectedWorkerFault(RuntimeError):
+    pass
+
+
 class RemoteFunction:
     def __init__(self, func):
         self._function = func
@@ -165,7 +171,11 @@ class RemoteFunction:
         st_np = _np.random.get_state()
         st_py = _pyrandom.getstate()
         _np.random.seed([STATE.base_seed & 0xFFFFFFFF, serial & 0xFFFFFFFF, 0xC0FFEE])
+        nth = STATE.func_calls.get(self.__name__, 0) + 1
+        STATE.func_calls[self.__name__] = nth
         try:
+            if STATE.fail_jobs and (self.__name__, nth) in STATE.fail_jobs:
+                raise InjectedWorkerFault(f"injected worker fault in job {nth} of {self.__name__}")
             result = self._function(*a, **k)
             ref.data, ref.bufs = _roundtrip(result)
         except Exception as err:  # noqa: BLE001 - surfaced on get(), like a RayTaskError
@@ -261,6 +271,8 @@ def reset(base_seed: int = 0, scheduler=None, keep_actors: bool = False, exec_or
     STATE.exec_log = []
     STATE.on_job = None
     STATE.after_job = None
+    STATE.fail_jobs = None
+    STATE.func_calls = {}
     if not keep_actors:
         STATE.actors = {}
 
@@ -361,9 +373,39 @@ def install():
             raise RuntimeError("resonaate was imported before the ray shim was installed")
     mod = sys.modules[__name__]
     sys.modules["ray"] = mod
+    sys.modules["ray.exceptions"] = mod.exceptions
     return mod
 
 
 ObjectID = ObjectRef
 __version__ = "shim"
-exceptions = types.SimpleNamespace(RayTaskError=Exception, GetTimeoutError=TimeoutError)
+
+
+class RayTaskError(Exception):
+    """What ``ray.get`` raises for a job that raised on its worker (``.cause`` is the original exception)."""
+
+    def __init__(self, function_name="", traceback_str="", cause=None):
+        super().__init__(f"{function_name}: {cause!r}")
+        self.function_name, self.traceback_str, self.cause = function_name, traceback_str, cause
+
+
+def _as_task_error(func_name, err):
+    """Like Ray's ``as_instanceof_cause``: an exception that is both a RayTaskError and an instance of the cause's class."""
+    base = type(err)
+    try:
+        # (named like its cause, so that mechanism keys built from exception names do not depend on which side of the job boundary raised)
+        cls = type(base.__name__, (RayTaskError, base), {"__init__": lambda self: None, "__str__": lambda self: f"{func_name}: {err!r}"})
+        out = cls()
+        out.args = getattr(err, "args", ())
+    except TypeError:
+        out = RayTaskError(func_name, "", err)
+        return out
+    out.function_name, out.traceback_str, out.cause = func_name, "", err
+    return out
+
+
+exceptions = types.ModuleType("ray.exceptions")
+exceptions.RayTaskError = RayTaskError
+exceptions.RayError = Exception
+exceptions.GetTimeoutError = TimeoutError
+sys.modules.setdefault("ray.exceptions", exceptions) if False else None
